@@ -15,7 +15,11 @@ def run(tier, seed, replay=None):
     ]
     if not C.proof_layer(res, PID, THEORY):
         return res.finish()
-    out = D.explore(res, tier, seed)
+    only = D.parse_replay(replay) if replay else None
+    if replay and only is None:
+        res.violation("replay file not understood", open(replay).read()[:500], found_input=False)
+        return res.finish()
+    out = D.explore(res, tier, seed, only)
     if out is None:
         return res.finish()
     known = [k for k in C.load_known() if k["property"] == PID and k["status"] == "known"]
@@ -46,8 +50,8 @@ def run(tier, seed, replay=None):
                 dis += 1
                 if dis <= 3:
                     res.violation("model/implementation correspondence broken on damaged file (%s %s of base %s): the reader model no longer describes what the reader reports" % (c["file"], c["op"], bid),
-                                  "case %s damage base=%s main=c.jbk file=%s op=%s\nend\n# implementation: %s\n# model:          %s\n" % (
-                                      c["id"], o["dir"], c["file"], c["op"], c["debug"]["lines"][:3], c["model"][:3]), found_input=False)
+                                  "case %s damage base=%s main=c.jbk file=%s op=%s\nend\n# base container: %s\n# implementation: %s\n# model:          %s\n" % (
+                                      c["id"], o["dir"], c["file"], c["op"], o["base"], c["debug"]["lines"][:3], c["model"][:3]), found_input=False)
     if k1_hits:
         res.known("K1", "XOR of 5 consecutive bytes of a CRC-protected block with the CRC-32C kernel pattern 01 1E DC 6F 41 passes the block check and silently changes decoded structure "
                         "(%d positions hit on this run, e.g. %s); theorem C05_any_alteration_refuted" % (len(k1_hits), k1_hits[0]))
@@ -57,7 +61,7 @@ def run(tier, seed, replay=None):
         "rule": "3 base containers (raw, zstd, lz4 two-file); every byte position (quick: every position of the first, every 3rd of the others) x masks, "
                 "truncations, zeroed/overwritten ranges, appended garbage, non-jubako files; each read in a child process (debug+release) and by the model; "
                 "non-trivial = the damaged read differs from the pristine read in some reported way",
-        "samples": ["%s %s" % (o["cases"][5]["file"], o["cases"][5]["op"]) for o in out.values()],
+        "samples": ["%s %s" % (o["cases"][min(5, len(o["cases"]) - 1)]["file"], o["cases"][min(5, len(o["cases"]) - 1)]["op"]) for o in out.values()],
         "disagreements_checked": dis, "exhaustive": False,
     })
     return res.finish()
